@@ -31,19 +31,20 @@ def _h(name, **kw):
     return d
 
 
+FLOAT_TYPES = ["Phif64", "Phif32", "Tanhf64", "Tanhf32", "Minstarapproxf64", "Minstarapproxf32", "Aminstarf64", "Aminstarf32"]
 C05_QUICK = ([_h(f"c05::c05_quantize__{t}") for t in I8_TYPES] + [_h(f"c05::c05_clip__{t}") for t in I8_TYPES]
              + [_h(f"c05::c05_var8__{t}", bound="degrees 1..=8 (the thorough tier covers 1..=200)") for t in I8_TYPES]
              + [_h(f"c05::c05_layered2__{t}", bound="check degree 2, |variable LLR| <= 508") for t in I8_TYPES]
              + [_h(f"c05::c05_layered3__{t}", bound="check degree 3, |variable LLR| <= 508") for t in I8_TYPES])
 C05_THOROUGH = ([h for h in C05_QUICK if "var8" not in h["harness"]]
                 + [_h(f"c05::c05_layered4__{t}", timeout=2400, bound="check degree 4, |variable LLR| <= 508") for t in I8_TYPES]
+                + [_h(f"c04f::c05f_var__{t}", timeout=5400, mem_gb=5, bound="float variable rule, degrees 1..=3, |x| <= 1e30 (left-to-right sum)") for t in FLOAT_TYPES]
                 + [_h(f"c05::c05_var32__{t}", timeout=3600, mem_gb=8, bound="degrees 1..=32") for t in I8_TYPES]
                 + [_h(f"c05::c05_var100__{t}", timeout=7200, mem_gb=14, cap_gb=40,
                       bound="degrees 1..=100 for the four Jones x degree-one shapes of the shared macro body (1..=200 did not finish)")
                    for t in ["Minstarapproxi8", "Minstarapproxi8Jones", "Minstarapproxi8Deg1Clip", "Aminstari8JonesDeg1Clip"]])
 C04_QUICK = ([_h(f"c04::c04_table__{t}") for t in I8_TYPES] + [_h(f"c04::c04_check2__{t}") for t in I8_TYPES]
              + [_h(f"c04::c04_check3__{t}") for t in I8_TYPES])
-FLOAT_TYPES = ["Phif64", "Phif32", "Tanhf64", "Tanhf32", "Minstarapproxf64", "Minstarapproxf32", "Aminstarf64", "Aminstarf32"]
 C04_QUICK = C04_QUICK + [_h(f"c04f::c04f_check{d}__{t}", bound="float type: count" + ("" if t.startswith("Aminstar") else ", sign") + (", magnitude" if t.startswith("Minstar") else "") + " under axiomatised tanh/ln/atanh/exp/ln_1p, |x| <= 1e30")
                          for t in FLOAT_TYPES for d in (2, 3)]
 C04_THOROUGH = C04_QUICK + [_h(f"c04::c04_check{d}__{t}", bound=f"degree {d} (generic clauses: count, sign, magnitude bound, hard limiting)", timeout=2400)
@@ -186,7 +187,7 @@ PROPS = {
         "assumptions": [
             "Kani/CBMC/CaDiCaL; overflow, bounds and unwinding assertions on",
             "8-bit arithmetic objects are built around the specified correction table through the guarded hook verif_with_table (the variable rule, the quantiser and clip do not read the table); that new() builds exactly that table is proved per type by c04_table__*",
-            "float arithmetics (variable rule on f32/f64) are not covered: the claim is about the sixteen 8-bit types",
+            "float arithmetics: the variable rule is checked at degrees 1..3 only (thorough tier, bounded); their layered/flooding consistency is not covered",
         ],
     },
     "C04": {
